@@ -10,7 +10,7 @@ THEOREMS = ['C11_colifilt', 'C11_colfilter', 'C11_c2q']
 VO = ['theories/Props/C11.vo', 'theories/Run/RunDtcwt.vo', 'theories/Run/RunSpec.vo']
 RULE = ('correspondence A: colifilt/rowifilt full operator matrices (both m/2 parities, both flags, rows below the filter), c2q, inv_j1/inv_j2plus with every presence combination and the '
         'oversize-lowpass crop, DTCWTInverse on integer pyramids with every absent-level subset and absent lowpass; correspondence B: reference colifilt/colfilter closed forms vs the package; '
-        'oracle: DTCWTInverse vs dtcwt.Transform2d.inverse on random pyramids of forward-compatible shapes (20 pairs), None / 0-dim / empty placeholders vs explicit zeros. distinct by configuration.')
+        'oracle: DTCWTInverse vs dtcwt.Transform2d.inverse on random pyramids of forward-compatible shapes (20 pairs) incl. full-shape levels that are exactly zero, None / 0-dim / empty placeholders vs explicit zeros. distinct by configuration.')
 TRUSTED = TRUSTED_COMMON + ['the NumPy dtcwt package as reference (closed forms in Spec/DtcwtRef.v tied by correspondence B; inverse level structure by the oracle)']
 ASSUMES = ['theorems cover colifilt (all cases), colfilter and c2q for ANY input; row twins, size reconciliation and absent-level handling by correspondence + oracle (known findings KF-DTCWT-NONE-CROP, KF-DTCWT-ALL-ABSENT)']
 
@@ -34,6 +34,13 @@ def oracle_cases(tier, rng):
         for J in (1, 2, 3):
             for hw in (sizes if tier == 'thorough' else [sizes[i] for i in rng.choice(len(sizes), 2, replace=False)]):
                 yield dict(kind='ref', biort=b, qshift=q, J=J, H=hw[0], W=hw[1], seed=int(rng.integers(1 << 30)))
+    # full-shape levels that are exactly zero (a mask, a pruned scale): still the reference inverse of that pyramid, same extent
+    for (b, q) in [('near_sym_a', 'qshift_a'), ('near_sym_b', 'qshift_b'), ('legall', 'qshift_06')]:
+        for J in (2, 3):
+            for hw in [(10, 13), (18, 12), (26, 30), (7, 9)] + ([(100, 100), (126, 126), (64, 90)] if tier == 'thorough' else []):
+                for zl in [z for z in itertools.product([0, 1], repeat=J) if any(z)]:
+                    if tier == 'quick' and sum(zl) > 1 and b != 'near_sym_a': continue
+                    yield dict(kind='ref', biort=b, qshift=q, J=J, H=hw[0], W=hw[1], zero=list(zl), seed=int(rng.integers(1 << 30)))
     for (b, q) in [('near_sym_a', 'qshift_a'), ('antonini', 'qshift_c'), ('legall', 'qshift_06')]:
         for J in (1, 2, 3):
             for hw in [(16, 16), (8, 24), (12, 10), (14, 18)]:
@@ -44,7 +51,7 @@ def oracle_cases(tier, rng):
 
 
 def strat_key(cfg):
-    return '%s/%s/%s/J%d/%s' % (cfg['kind'], cfg['biort'], cfg['qshift'], cfg['J'], cfg.get('absent'))
+    return '%s/%s/%s/J%d/%s' % (cfg['kind'], cfg['biort'], cfg['qshift'], cfg['J'], cfg.get('absent') or cfg.get('zero'))
 
 
 def pyramid(cfg, r):
@@ -61,6 +68,7 @@ def oracle_run(cfg):
     sc = dtfam.filt_gain(cfg['biort'], cfg['qshift'], cfg['J'])
     try:
         if cfg['kind'] == 'ref':
+            YH = [h * (0 if z else 1) for h, z in zip(YH, cfg.get('zero') or [0] * len(YH))]
             got = inv((torch.tensor(YL), [torch.tensor(h) for h in YH])).numpy()
             want = dtfam.ref_inverse(YL, YH, cfg['biort'], cfg['qshift'])
             if got.shape != want.shape:
